@@ -48,20 +48,20 @@ func editsWith(c Case, pos int) specs.ContainerEdits {
 	if has("mountType") {
 		// a plain mount first: the typed one is not the first list element
 		e.Mounts = append(e.Mounts, &specs.Mount{HostPath: "/h0", ContainerPath: "/c0"})
-		m.Type = "bind"
+		m.Type = []string{"bind", "tmpfs", "x", "0"}[pos%4] // the spelling of a feature varies with its position
 	}
 	e.Mounts = append(e.Mounts, m)
 	dn := &specs.DeviceNode{Path: "/dev/x"}
 	if has("hostPath") {
 		e.DeviceNodes = append(e.DeviceNodes, &specs.DeviceNode{Path: "/dev/w"})
-		dn.HostPath = "/dev/y"
+		dn.HostPath = []string{"/dev/y", "/", "relative", "/dev/x"}[pos%4]
 	}
 	e.DeviceNodes = append(e.DeviceNodes, dn)
 	if has("intelRdt") {
-		e.IntelRdt = &specs.IntelRdt{ClosID: "c"}
+		e.IntelRdt = []*specs.IntelRdt{{ClosID: "c"}, {EnableCMT: true}, {L3CacheSchema: "L3:0=f"}, {}}[pos%4]
 	}
 	if has("additionalGids") {
-		e.AdditionalGIDs = []uint32{5}
+		e.AdditionalGIDs = [][]uint32{{5}, {0}, {0, 0}, {4294967295}}[pos%4]
 	}
 	return e
 }
@@ -79,7 +79,7 @@ func build(c Case) *specs.Spec {
 	for k := 0; k < c.N; k++ {
 		d := specs.Device{Name: fmt.Sprintf("d%d", k)}
 		if c.Place["digitName"]&(1<<(k+1)) != 0 {
-			d.Name = fmt.Sprintf("%dd", k)
+			d.Name = []string{"0d", "9", "5-x"}[k%3]
 		}
 		if c.Place["devAnnotations"]&(1<<(k+1)) != 0 {
 			d.Annotations = map[string]string{"k": "v"}
